@@ -340,9 +340,13 @@ func (m *Match) GroupByName(name string) *Group {
 func (m *Match) GroupByNumber(num int) *Group {
 	// check our sparse map
 	if m.sparseCaps != nil {
-		if newNum, ok := m.sparseCaps[num]; ok {
-			num = newNum
+		newNum, ok := m.sparseCaps[num]
+		if !ok {
+			// with sparse numbering a number that is not in the map names no group
+			// (it must not be taken for a capture slot)
+			return nil
 		}
+		num = newNum
 	}
 	if num >= len(m.matchcount) || num < 0 {
 		return nil
